@@ -39,6 +39,7 @@ type Vars struct {
 	AlwaysGen bool // gen is declared always=True
 	Sabotage  bool // leaf's body removes .dawn/build/temp, so that recording its result fails
 	Colon     bool // target //pkg:co:lon exists
+	XSrc      bool // leaf lists a second source, pkg/c.txt (the body sees the list through t.sources)
 	OtherAll  bool // target //pkg:other_all exists (its record name has the record name of //pkg:other as a proper prefix)
 	Diamond   bool // leaf also depends on gen, which mid reaches through the generated file (a shared dependency)
 	Missing   bool // top also depends on a target that does not exist
@@ -71,6 +72,7 @@ func (v Vars) render() map[string]string {
 	f["dawn.toml"] = "name = \"p\"\n"
 	f["src/a.txt"] = fmt.Sprintf("a%d\n", v.A)
 	f["pkg/b.txt"] = fmt.Sprintf("b%d\n", v.B)
+	f["pkg/c.txt"] = "c\n"
 	f["dir/x.txt"] = fmt.Sprintf("x%d\n", v.X)
 	if v.YName == 0 {
 		f["dir/y.txt"] = "why\n"
@@ -171,7 +173,7 @@ def _top(t):
 		p.WriteString("# pkg comment\n")
 	}
 	p.WriteString("mode = parse_flag(\"mode\", default=\"m0\")\n")
-	fmt.Fprintf(&p, "def _leaf(t, d=%d):\n    step(\"leaf\")\n    emit(\"out/leaf\", \"leaf:\" + slurp(\"pkg/b.txt\") + \":\" + str(d) + \":\" + mode)\n", 5+v.D)
+	fmt.Fprintf(&p, "def _leaf(t, d=%d):\n    step(\"leaf\")\n    emit(\"out/leaf\", \"leaf:\" + slurp(\"pkg/b.txt\") + \":\" + str(d) + \":\" + mode + \":\" + str(len(t.sources)))\n", 5+v.D)
 	if v.Sabotage {
 		p.WriteString("    sabotage()\n")
 	}
@@ -180,11 +182,11 @@ def _top(t):
 	}
 	switch {
 	case v.Cycle:
-		p.WriteString("target(name=\"leaf\", function=_leaf, sources=[\"b.txt\"], deps=[\"//:top\"])\n")
+		p.WriteString("target(name=\"leaf\", function=_leaf, sources=" + leafSources(v) + ", deps=[\"//:top\"])\n")
 	case v.Diamond:
-		p.WriteString("target(name=\"leaf\", function=_leaf, sources=[\"b.txt\"], deps=[\"//:gen\"])\n")
+		p.WriteString("target(name=\"leaf\", function=_leaf, sources=" + leafSources(v) + ", deps=[\"//:gen\"])\n")
 	default:
-		p.WriteString("target(name=\"leaf\", function=_leaf, sources=[\"b.txt\"])\n")
+		p.WriteString("target(name=\"leaf\", function=_leaf, sources=" + leafSources(v) + ")\n")
 	}
 	if v.Other {
 		p.WriteString("def _other(t):\n    step(\"other\")\n    emit(\"out/other\", \"other\")\ntarget(name=\"other\", function=_other)\n")
@@ -197,6 +199,13 @@ def _top(t):
 	}
 	f["pkg/BUILD.dawn"] = p.String()
 	return f
+}
+
+func leafSources(v Vars) string {
+	if v.XSrc {
+		return "[\"b.txt\", \"c.txt\"]"
+	}
+	return "[\"b.txt\"]"
 }
 
 func (v Vars) args() []string {
@@ -213,7 +222,7 @@ func (v Vars) env(t string) string {
 	case tTop:
 		return fmt.Sprintf("E%v C%v", v.Edge, v.Chatty)
 	case tLeaf:
-		return fmt.Sprintf("D%d F%d C%v S%v", v.D, v.FlagV, v.Chatty, v.Sabotage)
+		return fmt.Sprintf("D%d F%d C%v S%v X%v", v.D, v.FlagV, v.Chatty, v.Sabotage, v.XSrc)
 	case tOther, tColon, tOtherAll:
 		return ""
 	}
@@ -265,6 +274,9 @@ func (v Vars) srcs(t string, files map[string]string) string {
 		g, ok := files["gen/g.txt"]
 		return b.String() + fmt.Sprintf("|g=%v:%s", ok, g)
 	case tLeaf:
+		if v.XSrc {
+			return files["pkg/b.txt"] + "|" + files["pkg/c.txt"]
+		}
 		return files["pkg/b.txt"]
 	}
 	return ""
